@@ -67,6 +67,26 @@ def m_checked(op):
     return f
 
 
+def m_checked_shift(op):
+    def f(i, p, fr, c, a, d, r):
+        x, y = a[0], a[1]; n = x.size()
+        yy = z3.ZeroExt(n - y.size(), y) if y.size() < n else (z3.Extract(n - 1, 0, y) if y.size() > n else y)
+        res = (x << yy) if op == 'shl' else (x >> yy)           # >> on i32 is arithmetic
+        return ret(p, fr, d, r, opt_sym(z3.ULT(y, z3.BitVecVal(n, y.size())), res))
+    return f
+
+
+def m_wrapping(op):
+    def f(i, p, fr, c, a, d, r):
+        x = a[0]; y = a[1] if len(a) > 1 else None; n = x.size()
+        if op in ('shl', 'shr'):
+            m = z3.BitVecVal(n - 1, y.size()) & y
+            yy = z3.ZeroExt(n - m.size(), m) if m.size() < n else (z3.Extract(n - 1, 0, m) if m.size() > n else m)
+            return ret(p, fr, d, r, (x << yy) if op == 'shl' else (x >> yy))
+        return ret(p, fr, d, r, {'add': lambda: x + y, 'sub': lambda: x - y, 'mul': lambda: x * y, 'neg': lambda: -x}[op]())
+    return f
+
+
 def m_ok_or_else(i, p, fr, c, a, d, r):
     o = S(a[0])
     res = Adt('Result', z3.If(discr_term(o) == 1, z3.BitVecVal(0, 8), z3.BitVecVal(1, 8)) if not isinstance(o.discr, int) else (0 if o.discr == 1 else 1))
@@ -106,6 +126,10 @@ LIB.update({
     r'core::num::<impl i32>::checked_add$': m_checked('add'), r'core::num::<impl i32>::checked_sub$': m_checked('sub'),
     r'core::num::<impl i32>::checked_mul$': m_checked('mul'), r'core::num::<impl i32>::checked_div$': m_checked('div'),
     r'core::num::<impl i32>::checked_neg$': m_checked('neg'),
+    r'core::num::<impl i32>::checked_shl$': m_checked_shift('shl'), r'core::num::<impl i32>::checked_shr$': m_checked_shift('shr'),
+    r'core::num::<impl i32>::wrapping_shl$': m_wrapping('shl'), r'core::num::<impl i32>::wrapping_shr$': m_wrapping('shr'),
+    r'core::num::<impl i32>::wrapping_add$': m_wrapping('add'), r'core::num::<impl i32>::wrapping_sub$': m_wrapping('sub'),
+    r'core::num::<impl i32>::wrapping_mul$': m_wrapping('mul'), r'core::num::<impl i32>::wrapping_neg$': m_wrapping('neg'),
     r'^Option::<.*>::ok_or_else::<': m_ok_or_else,
     r'^std::ops::Range::<i32>::contains::<i32>$': m_range_contains,
     r'^<i32 as TryFrom<i64>>::try_from$': m_try_from_i64_i32,
